@@ -31,8 +31,11 @@ def main():
         return 0 if ok else 1
     if rp.get("kind") == "probe":
         from pyvc.contract import REGISTRY
-        for m in ("valuemodel",):
+        for m in ("valuemodel", "findkey", "fsarray", "fullscreen", "cursorwindow"):
             importlib.import_module("contracts." + m)
+        pm = importlib.import_module("props." + d["property"])
+        if hasattr(pm, "attach_probes"):
+            pm.attach_probes()
         fails = list(REGISTRY[rp["contract"]].probe())
         print("holds" if not fails else f"STILL VIOLATED: {fails[0][0]}: {fails[0][2]} (inputs {fails[0][1]})")
         return 0 if not fails else 1
